@@ -24,6 +24,19 @@ type Fault struct {
 	Target string `json:"target,omitempty"` // type name
 	Sub    string `json:"sub,omitempty"`    // field / arg / value name
 	Arg    string `json:"arg,omitempty"`    // replacement name / type
+	// Bad: the illegal name an invalid*Name operator puts in place ("" = the operator's stock one)
+	Bad string `json:"bad,omitempty"`
+}
+
+// illegalNames do not match /^[_a-zA-Z][_a-zA-Z0-9]*$/: punctuation, leading digits, blanks,
+// and letters / digits / marks outside ASCII.
+var illegalNames = []string{"bad-name", "1x", "a b", "bad.value", "x-", "-", "$x", "a!", "Caf\u00e9", "gr\u00f6\u00dfe", "\u03b1", "L\u0663", "x\u0301", "\uff58", "a\u200b", "\u65e5\u672c", "_\u00e9", "x\u00b2"}
+
+func (f *Fault) bad(stock string) string {
+	if f.Bad != "" {
+		return f.Bad
+	}
+	return stock
 }
 
 type ConfCase struct {
@@ -104,7 +117,7 @@ func (b *libBuilder) args(owner, field string, defs []*model.ArgDef) graphql.Fie
 	for _, a := range defs {
 		name := a.Name
 		if f := b.has("invalidArgName", owner, field); f != nil && f.Arg == a.Name {
-			name = "bad-arg"
+			name = f.bad("bad-arg")
 		}
 		cfg := &graphql.ArgumentConfig{Type: b.inType(a.Type), DefaultValue: ref.DefaultGo(b.m, a.Type, a.Default)}
 		if f := b.has("nilArgConfig", owner, field); f != nil && f.Arg == a.Name {
@@ -167,7 +180,7 @@ func (b *libBuilder) fields(td *model.TypeDef) graphql.Fields {
 	for _, fd := range td.Fields {
 		name := fd.Name
 		if f := b.has("invalidFieldName", td.Name, fd.Name); f != nil {
-			name = "bad name"
+			name = f.bad("bad name")
 		}
 		if b.has("ifaceFieldMissing", td.Name, fd.Name) != nil {
 			continue
@@ -225,8 +238,8 @@ func (b *libBuilder) build() graphql.SchemaConfig {
 			if b.has("emptyEnumValues", td.Name, "") == nil {
 				for _, v := range td.Values {
 					name := v.Name
-					if b.has("invalidEnumValueName", td.Name, v.Name) != nil {
-						name = "bad.value"
+					if f := b.has("invalidEnumValueName", td.Name, v.Name); f != nil {
+						name = f.bad("bad.value")
 					}
 					cfg := &graphql.EnumValueConfig{Value: v.InternalGo(), DeprecationReason: v.Deprecation}
 					if b.has("nilEnumValueConfig", td.Name, v.Name) != nil {
@@ -250,8 +263,8 @@ func (b *libBuilder) build() graphql.SchemaConfig {
 			}
 			for _, f := range td.InputFields {
 				name := f.Name
-				if b.has("invalidInputFieldName", td.Name, f.Name) != nil {
-					name = "bad-field"
+				if ff := b.has("invalidInputFieldName", td.Name, f.Name); ff != nil {
+					name = ff.bad("bad-field")
 				}
 				cfg := &graphql.InputObjectFieldConfig{Type: b.inType(f.Type), DefaultValue: ref.DefaultGo(m, f.Type, f.Default)}
 				switch {
@@ -781,7 +794,14 @@ func c11Oracle(c *ConfCase) (msg string, accepted bool) {
 		// known finding: a type whose configured fields are all nil is accepted without fields
 		for _, f := range c.Faults {
 			if f.Op == "nilField" && strings.Contains(msg, "type "+f.Target+" has no fields") && known("KF-C11-nil-only-fields") {
-				if td := c.Schema.Type(f.Target); td != nil && len(td.Fields) == 1 {
+				nilled := map[string]bool{}
+				for _, g := range c.Faults {
+					if g.Op == "nilField" && g.Target == f.Target {
+						nilled[g.Sub] = true
+					}
+				}
+				// every configured field of the type is nil (one fault on a one-field type, or one per field)
+				if td := c.Schema.Type(f.Target); td != nil && len(nilled) == len(td.Fields) {
 					stats.R.KnownHit("KF-C11-nil-only-fields")
 					return "", true
 				}
@@ -889,7 +909,11 @@ func TestC11(t *testing.T) {
 			f.Target = td.Name
 			switch f.Op {
 			case "invalidTypeName":
-				f.Arg = []string{"bad-name", "", "1x", "a b"}[gen.Uniform(rt, 4, "badName")]
+				f.Arg = append([]string{""}, illegalNames...)[gen.Uniform(rt, len(illegalNames)+1, "badName")]
+			case "invalidFieldName", "invalidArgName", "invalidEnumValueName", "invalidInputFieldName":
+				if gen.Chance(rt, 70, "drawnBadName") {
+					f.Bad = illegalNames[gen.Uniform(rt, len(illegalNames), "badName")]
+				}
 			case "dupNameAcrossKinds":
 				other := s.Types[gen.Uniform(rt, len(s.Types), "other")]
 				if other.Name == td.Name {
